@@ -63,6 +63,7 @@ def ok_arm(body, call_bb):
 
 
 def run(ctx):
+    n_ascii(ctx)
     prog = ctx.prog()
     # ---------------------------------------------------------------- P-DROP
     demuxes = [("Ipv4", "ipv4_parsing::{impl#0}::from_bytes"), ("Udp", "udp_parsing::{impl#0}::from_bytes_ipv4"),
@@ -174,3 +175,40 @@ def run(ctx):
     stops = [K.SEND_PCI + "::{closure#0}", K.NETWORK_SEND]
     st = PC.scan(ctx, "P-PANIC", dec + ndle + frame, scope, table, extra_discharge=extra, stops=stops)
     ctx.require(st["sites"] >= 100, "P-PANIC: only %d sites enumerated (scope lost)" % st["sites"])
+
+
+
+def n_ascii(ctx):
+    """nom's tag_no_case on &str compares characters but splits at the keyword's *byte* length: a non-ASCII character
+    that case-folds to an ASCII letter (U+212A -> 'k', U+017F -> 's') makes it slice inside a character and panic.
+    Every tag_no_case parser built in the workspace must therefore only ever see input whose leading word is ASCII:
+    its construction is dominated by the true branch of str::is_ascii."""
+    prog = ctx.prog()
+    n = 0
+    for b in prog.bodies.values():
+        if not b.key.startswith("elvis::ndl") and not b.key.startswith("elvis_core::"):
+            continue
+        sites = [(bb, t) for bb, t in K.calls(b) if (F.callee_key(t) or "").endswith("bytes::complete::tag_no_case") or (F.callee_key(t) or "").endswith("bytes::streaming::tag_no_case")]
+        if not sites:
+            continue
+        g = cfg(b)
+        guards = []
+        for s_ in range(len(b.blocks)):
+            if b.is_cleanup(s_) or b.term(s_)[0] != "switch":
+                continue
+            c = dep.switch_condition(b, s_)
+            if c and c["kind"] == "call" and (F.callee_key(c["term"]) or "").endswith("str::{impl#0}::is_ascii"):
+                tr, fa = dep.bool_branches(b, s_)
+                guards.append((tr, fa, dep.arg_origins(b, c["call_bb"], 0)))
+        for bb, t in sites:
+            n += 1
+            kw = F.op_const(F.call_args(t)[0]) if F.call_args(t) else None
+            kws = kw.get("str") if isinstance(kw, dict) else None
+            okk = any(g.dominates(tr, bb) and not g.dominates(fa, bb) and any(a[0] == "param" for a in o) for tr, fa, o in guards)
+            if kws is not None and not kws.isascii():
+                okk = False
+            key = "N-ASCII:%s:%s" % (b.key.rsplit("::", 1)[-1], kws if kws is not None else "?")
+            (ctx.ok if okk else ctx.bad)("N-ASCII", key, F.call_loc(t),
+                "case-insensitive keyword parser only built after the leading word was checked to be ASCII" if okk else
+                "tag_no_case(%r) can see non-ASCII input: a character that case-folds to a letter of the keyword (e.g. U+212A KELVIN SIGN for 'k') makes nom split the text inside that character and panic" % kws)
+    ctx.require(n >= 5, "N-ASCII: only %d case-insensitive keyword parsers found" % n)
